@@ -322,8 +322,17 @@ Definition hist_of (s : spec) (c : ctx) : list (line hpt) :=
   plot_lines hpt (@is_some Q) (idoms c) (hist_slice s c) false
              (pos_of_prop c P_row) (pos_of_prop c P_col) (styled_of c) (s_pal s).
 Definition infini_hist (s : spec) : list (line hpt) := hist_of s (ctx_of s).
-(* size of the stacked histogram dimension *)
-Definition hist_size (c : ctx) : nat := length (product (map a_dom (c_red c))).
+(* the histogram dimension '__hist_dim__': one entry per combination of the coordinates of the unmapped
+   dimensions (stack).  When EVERY dimension is mapped there is nothing to stack and the code adds a length-one
+   dimension (expand_dims): one entry, every slice is a single value.  [hist_dim_old] is the code before the
+   repair `fix: infiniplot histogram when every dimension is mapped`: stacking the empty list was refused by
+   xarray / pandas (None = ValueError). *)
+Definition hist_dim (red : list axis) : list (list label) := product (map a_dom red).
+Definition hist_dim_old (red : list axis) : option (list (list label)) :=
+  match red with [] => None | _ => Some (hist_dim red) end.
+Definition hist_dim_shape : string := "stack-or-expand_dims"%string.
+(* size of the histogram dimension *)
+Definition hist_size (c : ctx) : nat := length (hist_dim (c_red c)).
 Definition bins_ok (s : spec) (c : ctx) : bool :=
   if s_bins_default s then Nat.eqb (length (s_edges s)) (S (default_nbins (hist_size c))) else true.
 
